@@ -31,13 +31,17 @@ def encodeList (l : List String) : String :=
 def fieldOfName (n : String) : Option OField := OField.all.find? (·.name == n)
 def methodOfName (n : String) : Option OMethod := OMethod.all.find? (·.name == n)
 
-def parseEnv (s : String) : Env :=
-  let pairs := (if s == "-" then [] else s.splitOn ",").filterMap fun kv =>
+def parseEnvPairs (s : String) : List (OField × String) :=
+  (if s == "-" then [] else s.splitOn ",").filterMap fun kv =>
     match kv.splitOn ":" with
     | [k, v] => match fieldOfName k, decodeStr v with
       | some f, some v => some (f, v)
       | _, _ => none
     | _ => none
+
+/-- (the pair list is computed once by the caller; a `let` inside a function-valued definition would
+    be re-evaluated at every field lookup) -/
+def envOf (pairs : List (OField × String)) : Env :=
   fun f => match pairs.find? (·.1 == f) with | some p => p.2 | none => ""
 
 def parseOps (s : String) : Option (List (OMethod × List String)) :=
@@ -62,7 +66,8 @@ def errText : ParseError → String
 def handle (toks : List String) : String :=
   match toks with
   | "run" :: rest =>
-    let env := parseEnv ((kv rest "env").getD "-")
+    let pairs := parseEnvPairs ((kv rest "env").getD "-")
+    let env := envOf pairs
     match parseOps ((kv rest "ops").getD "-") with
     | none => "bad-op"
     | some ops =>
